@@ -23,9 +23,15 @@ type regStmt struct {
 	Op     string   `json:"op"`
 	Prefix []string `json:"prefix"`
 	Path   []string `json:"path"`
+	Base   []string `json:"base"`
 	Mw     int      `json:"mw"`
 	Route  int      `json:"route"`
 }
+
+// Regres is the resource controller of "res" statements: it implements the index action only
+type Regres struct{ h rux.HandlerFunc }
+
+func (r *Regres) Index(c *rux.Context) { r.h(c) }
 
 type regRoute struct {
 	Pos   int      `json:"pos"`
@@ -171,6 +177,9 @@ func (x *regExec) run(prog []regStmt, i int) int {
 				}
 				x.trace.emit(map[string]any{"op": "add", "path": pth, "mw": st.Mw, "got": toks(rt.Path())})
 			}
+		case "res":
+			x.r.Resource(tokStr(st.Base), &Regres{h: x.handler(pos, 0)}, x.mws(pos, st.Mw)...)
+			x.routes = append(x.routes, x.r.GetRoute("regres_index")) // (the name points to the route registered last)
 		case "ruse":
 			x.routes[st.Route-1].Use(x.mws(pos, st.Mw)...)
 		default:
@@ -305,6 +314,8 @@ func progText(p []regStmt) string {
 			out += fmt.Sprintf("Use(%d) ", st.Mw)
 		case "add":
 			out += fmt.Sprintf("GET(%q,mw=%d) ", tokStr(st.Path), st.Mw)
+		case "res":
+			out += fmt.Sprintf("Resource(%q,&Regres{},mw=%d) ", tokStr(st.Base), st.Mw)
 		case "ruse":
 			out += fmt.Sprintf("Route#%d.Use(%d) ", st.Route, st.Mw)
 		}
